@@ -625,8 +625,19 @@ def gen_file(seed, tier):
     parts = ["/sim"] + ["d%d" % i for i in range(depth)]
     cwd = "/".join(parts) if depth else "/sim"
     files = {}
-    where = gen.pick(rng, ["cwd", "ancestor", "package", "none", "explicit", "cwd", "ancestor"])
+    where = gen.pick(rng, ["cwd", "ancestor", "package", "none", "explicit", "cwd", "ancestor", "preset"])
     text, assign, step = gen_toml(rng)
+    if where == "preset":
+        # one of the three SHIPPED preset files, read through the same loader: faults on it are faults too
+        which = gen.pick(rng, ["metrics", "imperial", "mixed"])
+        loads = []
+        for _ in range(rng.randint(1, 3)):
+            f = gen.pick(rng, FAULTS)
+            loads.append({"fault": f, "arg": None, "arg_frac": rng.random(), "mask": 1 << rng.randint(0, 7),
+                          "replacement": gen_toml(rng)[0] if f == "replaced" else None,
+                          "pre": gen.pick(rng, ["defaults", "metric", "imperial", "odd"]), "pre_gstep": gen.pick(rng, [0.5, 3.0])})
+        return {"seed": seed, "mode18": "file", "cwd": "/sim", "where": "preset", "preset": which,
+                "target": f"<PKG>/assets/.pybc-{which}.toml", "files": {}, "decoys": {}, "text": "", "loads": loads, "sweep": None}
     target = None
     anc = ["/".join(parts[:k]) or "/" for k in range(len(parts), 0, -1)] + ["/"]
     fname = gen.pick(rng, [".pybc.toml", "pybc.toml"])
@@ -775,6 +786,17 @@ def _one_load(spec, load, pkgdir):
     files = {sub(p): t.encode() for p, t in spec["files"].items()}
     files.update({sub(p): t.encode() for p, t in spec["decoys"].items()})
     target = sub(spec["target"]) if spec["target"] else None
+    if spec["where"] == "preset":
+        with builtins.open(target, "rb") as fh:        # the real shipped file: its bytes go behind the seam
+            files[target] = fh.read()
+        n = len(files[target])
+        load = dict(load)
+        if load["fault"] == "short_read":
+            load["arg"] = int(load["arg_frac"] * n)
+        elif load["fault"] == "flip":
+            load["arg"] = [int(load["arg_frac"] * (n - 1)), load["mask"]]
+        elif load["fault"] == "replaced":
+            load["arg"] = load["replacement"]
     arg = load["arg"]
     if load["fault"] == "replaced":
         arg = arg.encode()
@@ -790,6 +812,8 @@ def _one_load(spec, load, pkgdir):
         try:
             if spec["where"] == "explicit":
                 pb.basicConfig(target)
+            elif spec["where"] == "preset":
+                {"metrics": pb.loadMetricUnits, "imperial": pb.loadImperialUnits, "mixed": pb.loadMixedUnits}[spec["preset"]]()
             else:
                 pb.basicConfig()
         except BaseException as e:  # noqa
@@ -802,7 +826,7 @@ def _one_load(spec, load, pkgdir):
     if load["fault"] == "getcwd_fail":
         # an injected error (the loader asks for the cwd even when given an explicit path): raise, or apply nothing
         # but what the expected file names
-        delivered = fs.content_after_fault(expected) if (expected and spec["where"] == "explicit") else None
+        delivered = fs.content_after_fault(expected) if (expected and spec["where"] in ("explicit", "preset")) else None
         relaxed_only = True
     else:
         delivered = fs.content_after_fault(expected) if expected else None
